@@ -261,15 +261,15 @@ class Ctl(Harness):
             add("box1", 3, 1, nested=True)
         def keep(d):
             P = PROBLEMS[d["pb"]]
+            if d.get("heavy"):
+                # the expensive variants only where the symbolic constraint values matter
+                return prop in ("C20", "C03") if d["pb"] == "boxnls" else prop in ("C06",)
             if prop == "C20":
                 return d["cb"] != "none"
             if prop == "C09":
                 return d["cb"] != "none" or d["target"] or not P.get("fun", True)
             if prop == "C01":
                 return P.get("bounds") is not None
-            if d.get("heavy"):
-                # the expensive variants only where the symbolic constraint values matter
-                return prop in ("C20", "C03") if d["pb"] == "boxnls" else prop in ("C06",)
             if d.get("repeat") or d.get("nested"):
                 return prop == "C11"
             if d.get("force"):
